@@ -31,12 +31,13 @@ type c11saved struct {
 }
 
 type c11env struct {
-	mu        sync.Mutex
-	local     base.LocalNode
-	proposals map[string]base.ProposalSignFact // fact hash -> proposal
-	pid       map[string]int
-	log       []c11saved
-	lastAVP   map[string]string // proposal fact hash -> new block of the avp given to Save (set by the script)
+	mu             sync.Mutex
+	cancelNextSave bool // the writer's next Save stores the block and then reports context.Canceled
+	local          base.LocalNode
+	proposals      map[string]base.ProposalSignFact // fact hash -> proposal
+	pid            map[string]int
+	log            []c11saved
+	lastAVP        map[string]string // proposal fact hash -> new block of the avp given to Save (set by the script)
 }
 
 func (w *c11writer) SetOperationsSize(uint64) {}
@@ -60,7 +61,11 @@ func (w *c11writer) SetINITVoteproof(context.Context, base.INITVoteproof) error 
 func (w *c11writer) SetACCEPTVoteproof(_ context.Context, avp base.ACCEPTVoteproof) error {
 	w.env.mu.Lock()
 	defer w.env.mu.Unlock()
-	w.env.lastAVP[w.proposal.Fact().Hash().String()] = avp.BallotMajority().NewBlock().String()
+	nb := "nil"
+	if h := avp.BallotMajority().NewBlock(); h != nil {
+		nb = h.String()
+	}
+	w.env.lastAVP[w.proposal.Fact().Hash().String()] = nb
 	return nil
 }
 func (w *c11writer) Save(context.Context) (base.BlockMap, error) {
@@ -68,6 +73,10 @@ func (w *c11writer) Save(context.Context) (base.BlockMap, error) {
 	defer w.env.mu.Unlock()
 	fh := w.proposal.Fact().Hash().String()
 	w.env.log = append(w.env.log, c11saved{Height: int64(w.proposal.Point().Height()), PID: w.env.pid[fh], NewBlock: w.env.lastAVP[fh], Manifest: w.manifest.Hash().String()})
+	if w.env.cancelNextSave { // the block reached the storage, the caller's context was cancelled before Save returned
+		w.env.cancelNextSave = false
+		return nil, context.Canceled
+	}
 	return nil, nil
 }
 func (w *c11writer) Cancel() error { return nil }
@@ -163,7 +172,7 @@ func c11oracle(c *Ctx, env *c11env, what string, input map[string]interface{}) {
 	defer env.mu.Unlock()
 	for i, e := range env.log {
 		if e.NewBlock != e.Manifest {
-			c.Violation("C11:saved-under-other-manifest", fmt.Sprintf("%s: block %d of proposal p%d was saved under an ACCEPT majority for %s, the computed manifest is %s", what, e.Height, e.PID, e.NewBlock[:8], e.Manifest[:8]), input)
+			c.Violation("C11:saved-under-other-manifest", fmt.Sprintf("%s: block %d of proposal p%d was saved under an ACCEPT majority for %s, the computed manifest is %s", what, e.Height, e.PID, c11short(e.NewBlock), c11short(e.Manifest)), input)
 		}
 		if i > 0 && e.Height <= env.log[i-1].Height {
 			c.Violation("C11:height-saved-again", fmt.Sprintf("%s: block %d saved after block %d", what, e.Height, env.log[i-1].Height), input)
@@ -226,15 +235,26 @@ func runC11(c *Ctx) error {
 				if lastPr >= 0 && c.Chance(2, 3) { // mostly the proposal that was processed last
 					pid = lastPr
 				}
-				match := c.Chance(3, 4)
-				nb := c11manifestHash(props[pid], previous)
+				var nb util.Hash = c11manifestHash(props[pid], previous)
 				mt := "m"
-				if !match {
+				switch k2 := c.Intn(16); {
+				case k2 < 3:
 					nb = valuehash.RandomSHA256()
 					mt = "x"
+				case k2 < 4: // an ACCEPT majority without a new block hash
+					nb = nil
+					mt = "n"
+				case k2 < 6: // the writer stores the block, then the save is reported as cancelled
+					mt = "c"
+					env.mu.Lock()
+					env.cancelNextSave = true
+					env.mu.Unlock()
 				}
 				tok = fmt.Sprintf("sv:%d:%s", pid, mt)
 				_, err := pps.Save(context.Background(), props[pid].Fact().Hash(), c11avp(env, props[pid].Point(), props[pid].Fact().Hash(), nb))
+				env.mu.Lock()
+				env.cancelNextSave = false
+				env.mu.Unlock()
 				out = c11errTok(err)
 			default:
 				tok = "cn"
@@ -304,4 +324,11 @@ func runC11(c *Ctx) error {
 		c11oracle(c, env, fmt.Sprintf("4 goroutines, seeds %v", seeds), map[string]interface{}{"seeds": seeds, "goroutines": 4})
 	}
 	return nil
+}
+
+func c11short(s string) string {
+	if len(s) > 8 {
+		return s[:8]
+	}
+	return s
 }
